@@ -19,7 +19,7 @@ PROPS = {
     },
     "C02": {
         "rule": "single real client <-> real server; (a) clean FIFO path: every accepted, fitting packet must be written exactly once in order; "
-                "(b) 2-40 s of drop/dup/delay after the handshake (and, in a separate job, 2-27 s of the same while the handshake is running; the oracle then applies if the client reaches tunnel mode), then a clean path with continuing traffic every p seconds: after T=60 s every accepted "
+                "(b) 2-40 s of drop/dup/delay after the handshake (and, in a separate job, 2-27 s of the same while the handshake is running; the oracle then applies if the client reaches tunnel mode), then a clean path with continuing traffic every p seconds (p = 0.1-5 s, in a fifth of the runs sparse: 8-30 s): after T=60 s every accepted "
                 "packet is delivered exactly once, in order, within 20 s and nobody exited. non-trivial = (a) >=5 packets accepted per side, (b) >=1 fault fired; "
                 "distinct = distinct run fingerprints",
         "jobs": [
@@ -148,7 +148,8 @@ PROPS["C16"] = {
             "re-delivery of the client's ping/data queries 1 us .. 3 s later: verbatim, with a new DNS id, with re-cased letters (Base32 upstream only), or from another source address; copies outside the window the statement "
             "quantifies over (more than 12 data / 26 ping queries received since the original was processed) are suppressed by the harness. Oracles: (1) both tun streams stay exactly-once and in order (the C02(a) oracle); "
             "(2) a server step that processed only a re-delivery leaves inpacket/outpacket len, offset, seqno, fragment and queue fill unchanged; (3) an identical repeat of a query whose answer is among the model's last 4 "
-            "gets the same payload; any other repeat of an answered query gets only the 1-byte marker, a refusal or silence; (4) from a foreign address with source checking: BADIP only. "
+            "gets the same payload (also an identical repeat of a relay's re-cased copy that was answered with it); any other repeat of an answered query gets only the 1-byte marker, a refusal, silence or the cached payload of its original; (4) from a foreign address with source checking: BADIP only; (5) no downstream packet is written to the client's tun a second time. "
+            "In 40% of the direct-path runs the client first tried raw mode, every raw frame of the server is lost and copies of the client's raw login datagrams arrive 3-55 s late (fault rawlate); the query that was waiting at the server when such a copy arrived is re-delivered at the moment the server has sent the fragment its ack names, after an aimed workload has let the 3-bit sequence number come round. "
             "non-trivial = handshake completed and >=1 re-delivery processed; distinct = distinct run fingerprints",
     "jobs": [
         {"scen": "tunnel", "sets": {"mode": "redeliver"}, "quick": 3000, "thorough": 150000},
@@ -213,7 +214,7 @@ PROPS["C09"] = {
     "rule": "four pairings over every query type (NULL, PRIVATE, TXT, SRV, MX, CNAME, A) x downstream codec (T,S,U,V,R): (i) real iodined answers a scripted protocol client's fragment-size probes (about 140 lengths per run out of 0..2047: format boundaries, a contiguous window, a random sample, "
             "in random order, with minimum- and maximum-length query names) and the reference decoder must obtain the documented probe pattern exactly, or a proper prefix / nothing - never other bytes - with the exactly-delivered lengths downward-closed per cell; "
             "(ii) the real client receives the same tunnel payloads re-encoded in transit by the reference encoder (different record layout, same protocol) and (iii) the real server's own encoding, with fragment sizes up to what one answer can carry and with autoprobe: "
-            "every packet must then be delivered intact, once, in order (a wrongly extracted fragment of any length breaks a packet); (iv) an on-path sender built on the reference encoder takes over the idle downstream channel of a real session and feeds the real client packets cut into fragments of arbitrary lengths (1 byte .. what the format carries) in arbitrary order, waiting for the client's acks: the client must write exactly those packets; in autoprobe runs the fragment size the client requests must be the largest probed size whose reply reached it exactly according to the reference decoder (a client that extracts other bytes misjudges its own probes). non-trivial = (i) >=5 exact deliveries, (ii)/(iii) handshake completed and >=5 packets accepted per side; distinct = distinct run fingerprints",
+            "every packet must then be delivered intact, once, in order (a wrongly extracted fragment of any length breaks a packet); (iv) an on-path sender built on the reference encoder takes over the idle downstream channel of a real session and feeds the real client packets cut into fragments of arbitrary lengths (1 byte .. 4090 bytes for NULL, PRIVATE, TXT, SRV and MX, 110 for hostname answers) in arbitrary order, waiting for the client's acks: the client must write exactly those packets; in autoprobe runs the fragment size the client requests must be the largest probed size whose reply reached it exactly according to the reference decoder (a client that extracts other bytes misjudges its own probes). non-trivial = (i) >=5 exact deliveries, (ii)/(iii) handshake completed and >=5 packets accepted per side; distinct = distinct run fingerprints",
     "jobs": [
         {"scen": "probe", "sets": {}, "quick": 3000, "thorough": 200000},
         {"scen": "tunnel", "sets": {"mode": "clean9"}, "quick": 1500, "thorough": 80000},
